@@ -474,6 +474,44 @@ func c11pScenarios(r *mon.R, mode string) []*c11pScn {
 			}
 		}
 	}
+	// several equivocators in the same phase (fault budget >= 2), many per-recipient delivery orders with re-deliveries: the
+	// memory of who equivocated must not depend on the order in which the conflicts were noticed
+	for _, nt := range [][2]int{{5, 3}, {6, 4}, {7, 4}} {
+		sh := c11pFresh(nt[0], nt[1])
+		kinds := []string{"deal-equivocate", "deal-equivocate-public", "deal-equivocate-cipher", "resp-equivocate"}
+		nDv := r.N(10, 40)
+		if mode == "direct" {
+			nDv = r.N(4, 16)
+		}
+		for ki, kd := range kinds {
+			for rot := 0; rot < 2; rot++ {
+				// seats: spread over the index range, highest first / lowest first makes no difference to the set, the
+				// delivery order per recipient is what varies (dv)
+				var seats []int
+				budget := nt[0] - nt[1]
+				for i := 0; i < budget; i++ {
+					seats = append(seats, (1+rot+2*i)%nt[0])
+				}
+				f := map[int]c11pFault{}
+				for _, p := range seats {
+					tgt := ""
+					if kd == "resp-equivocate" {
+						tgt = "one"
+					}
+					f[p] = c11pFault{kind: kd, target: tgt}
+				}
+				if len(f) != budget || !c11pFaultBudgetOK(&sh, seats) {
+					continue
+				}
+				for dv := 1; dv <= nDv; dv++ {
+					add(sh, false, f, 100*ki+dv, "multi-equivocation")
+					if dv%4 == 0 {
+						add(sh, true, f, 100*ki+dv, "multi-equivocation")
+					}
+				}
+			}
+		}
+	}
 	// resharing, larger groups: sampled shapes and fault assignments
 	for k := 0; k < sampReshare; k++ {
 		sh := c11pRandomShape(g, 3, maxN)
